@@ -121,7 +121,12 @@ struct WorldQ : World {
   bool queue_empty();
   int spawner_stub(int chan);
   void plant(const Json &op);
-  void finish_c01(); void finish_c03(); void finish_c15();
+  void finish_c01(); void finish_c03(); void finish_c15(); void finish_c04();
+  int stub_unanswered[2] = {0, 0};   // commands a spawner stub has read and not yet answered
+  int64_t term_t = -1;               // when the running daemon got SIGTERM
+  // a daemon that got TERM long ago, has nothing outstanding at the spawners and is still there is not "stopping": it is stuck, and the
+  // progress clauses apply to it like to any running daemon
+  bool term_excuses() const { if (!send_term_seen) return false; bool stuck = send_pid && term_t >= 0 && k->clock - term_t > 20000 && stub_unanswered[0] == 0 && stub_unanswered[1] == 0; return !stuck; }
   bool enabled(const std::string &oracle) const;
   std::set<std::string> oracles_off, oracles_on;
   // C10: configuration in force (what the daemon last read successfully)
